@@ -174,14 +174,14 @@ PROPS = {
     "C09": dict(
         claim="theorem truncated_stream_rejected (all configurations, streams and cut positions): if the validator accepts every event of p ++ e :: rest and e is not the end-of-document, "
               "then p followed by the decoder's end-of-document is rejected, exactly at that final event (so a cut between two tokens never yields a silent success and everything decoded before it was delivered); "
-              "theorems posInt_cut_rejected_partial / negInt_cut_rejected_partial: every strict prefix of an encoded integer of any width makes the CBE token decoder fail with end-of-file and deliver nothing. "
+              "theorem cbe_truncation_delivers_a_prefix (every byte string, every cut position, all 30 token kinds of the CBE decoder model): the events delivered for the first k bytes - not counting the end-of-document the decoder adds when it stops between tokens - are a prefix of the events delivered for the whole input (the decoder reads a prefix code: CE/Cbe/Prefix.lean, ext_decodeOne, ext_decodeChunks by induction over chunk chains, decodeLoop_prefix by induction over the document); theorems posInt_cut_rejected_partial / negInt_cut_rejected_partial: every strict prefix of an encoded integer of any width makes the CBE token decoder fail with end-of-file and deliver nothing. "
               "Harness: every cut position (all, or 120 evenly spaced ones for long documents) of generated valid CBE documents and of CTE documents whose top-level value is a container, untyped and typed templates: "
               "the unmarshal call must fail, and the partial value must be a prefix of the full value (lists by prefix, maps by sub-map, structs field-wise, decoded scalars unchanged; for CTE one trailing scalar cut inside its token may differ); "
               "the CBE decoder model is compared with the implementation at random cuts (CBE.DEC)",
-        note="partial: the token-level cut theorem covers integers only (other token kinds: CBE.DEC correspondence at random cuts + the oracle at every cut); the builders are not modelled, so the prefix order on values is decided by the oracle on the implementation. "
+        note="partial: that a cut INSIDE a token always fails (rather than decoding to a shorter token) is a theorem for integers only (other token kinds: CBE.DEC correspondence at random cuts + the oracle at every cut); the event-prefix theorem is about the CBE decoder model, the CTE side and the builders are not modelled, so the prefix order on values is decided by the oracle on the implementation. "
              "CTE documents are parsed as a whole by ANTLR before any event is delivered; repaired in this session (fix 5833ea3): events recovered from text after the first syntax error are no longer delivered",
         level="proof", n_quick=1600, n_thorough=60000, shards=16,
-        lean_modules=["CE.Props.C09"],
+        lean_modules=["CE.Props.C09", "CE.Cbe.Prefix"],
         rule="even cases: grammar-directed rules-valid event streams (healthy core) encoded in CBE and, when the top-level value is a list or map, CTE, unmarshaled untyped; odd cases: reflect-generated type+value marshaled to CBE/CTE and unmarshaled into the same type; "
              "every cut 1 <= k < len (CTE: before the final closer); distinct by document bytes; non-trivial = longer than 3 bytes",
         trusted_base=COMMON_TB + ["the value-level prefix order (harness/run_trunc.go isPrefixValue) is Go code, not Lean"],
